@@ -375,6 +375,9 @@ Proof.
 Qed.
 
 (* Non-vacuity / examples: enum { A = 0x7fffffff, B, C }, enum { A = -1, B = 0x80000000u } and an int-range enum *)
+Lemma wf_explicit u ty : 0 <= u < W64 -> valid_itype ty -> in_range ty (mval (i_signed ty) u) = true -> wf_einput (Some (u, ty)).
+Proof. intros. cbn. auto. Qed.
+
 Example enum_examples :
   enum_type None [Some (2147483647, tint); None; None]
     = Ok (tuint, [(2147483647, mkI 100 4 false); (2147483648, mkI 100 4 false); (2147483649, mkI 100 4 false)]) /\
@@ -383,8 +386,13 @@ Example enum_examples :
   enum_type None [None; Some (M1, tint); None] = Ok (tint, [(0, tint); (M1, tint); (0, tint)]) /\
   Forall wf_einput [Some (2147483647, tint); None; None; Some (M1, tint); Some (2147483648, tuint)].
 Proof.
-  split; [|split; [|split]]; try (vm_compute; reflexivity).
-  repeat constructor; cbn; try (unfold W64, M1; lia); try (right; right; left; reflexivity).
+  split; [vm_compute; reflexivity|]. split; [vm_compute; reflexivity|]. split; [vm_compute; reflexivity|].
+  assert (V4 : forall i g, valid_itype (mkI i 4 g)) by (intros; right; right; left; reflexivity).
+  constructor; [apply wf_explicit; [unfold W64; lia|apply V4|vm_compute; reflexivity]|].
+  constructor; [exact I|]. constructor; [exact I|].
+  constructor; [apply wf_explicit; [unfold W64, M1; lia|apply V4|vm_compute; reflexivity]|].
+  constructor; [apply wf_explicit; [unfold W64; lia|apply V4|vm_compute; reflexivity]|].
+  constructor.
 Qed.
 
 (* ------------------------------------------------------------------ fixed underlying type (N3030) *)
@@ -440,7 +448,7 @@ Proof.
   - rewrite Iet in H. cbn [i_signed selfty] in H.
     destruct (e_first st) eqn:Hf.
     + cbn [negb andb orb] in H.
-      assert (Hvs : vs = []) by (rewrite <- Ivals, (Ifirst eq_refl); reflexivity). rewrite Hvs. cbn [last app].
+      assert (Hvs : vs = []) by (rewrite <- Ivals, (Ifirst eq_refl); reflexivity). rewrite Hvs in *. cbn [last].
       replace ((0 =? P63) && i_signed base) with false in H by (destruct (i_signed base); reflexivity).
       assert (Hz : typehasint (selfty base) 0 (i_signed base) = true).
       { rewrite typehasint_spec by (auto; unfold W64; lia). rewrite in_range_self.
@@ -449,7 +457,6 @@ Proof.
         destruct Hb as [->|[->|[->| ->]]]; destruct g; evalconsts; reflexivity. }
       rewrite Hz in H. cbn [negb] in H. injection H as <-.
       change (-1 + 1) with 0.
-      replace [0] with ([] ++ [0]) by reflexivity. rewrite <- Hvs at 2.
       apply frecord_inv; auto; try (unfold W64; lia).
       * unfold mval, P63. destruct (i_signed base); reflexivity.
       * rewrite typehasint_spec in Hz by (auto; unfold W64; lia). rewrite in_range_self in Hz.
